@@ -2,10 +2,12 @@
 //! public API of rl2tp under catch_unwind, prints one canonical result line per
 //! case.  Generates nothing, decides nothing.
 mod checked_reader;
+mod limit_reader;
 mod recording_writer;
 mod text;
 
 use checked_reader::CheckedReader;
+use limit_reader::LimitReader;
 use recording_writer::{OffsetWriter, RecordingWriter};
 use rl2tp::avp::types::result_code::CodeValue;
 use rl2tp::avp::types::*;
@@ -187,6 +189,18 @@ fn run_case(line: &str) -> R<String> {
             let res = Message::<Vec<u8>>::try_read_validate(&mut r, opts_of(arg(1))?);
             let v = r.log.borrow().len();
             format!("{} viol={}", print_mres(&res, r.len()), v)
+        }
+        "DECL" => {
+            let b = unhex(arg(3))?;
+            let mut r = LimitReader { data: &b, limit: arg(1).parse().map_err(|_| "limit".to_string())? };
+            let res = Message::<&[u8]>::try_read_validate(&mut r, opts_of(arg(2))?);
+            print_mres(&res, r.len())
+        }
+        "AVPSL" => {
+            let b = unhex(arg(2))?;
+            let mut r = LimitReader { data: &b, limit: arg(1).parse().map_err(|_| "limit".to_string())? };
+            let res = AVP::try_read_greedy::<&[u8]>(&mut r);
+            print_avpres(&res, r.len())
         }
         "DECC" => {
             let mut r = CheckedReader::new(unhex(arg(2))?);
